@@ -71,6 +71,18 @@ def step1 (d : DSt) (line : String) : DSt × String :=
       | "C12.sleep", [some ns] =>
         if !d.ok then (d, "bad-op") else
         ({ d with now := d.now + ns }, verdict (impl == ["ok"]) none "ok")
+      | "C12.logoutorder", [] =>
+        -- extracted fact: in removeSession the map entry is deleted before the file entry
+        -- (hypothesis `.memFirst` of C12_logout_final_interleaved)
+        (d, verdict (impl == ["memfirst"]) (if impl == ["memfirst"] then none else some "C12.logout-order") "memfirst")
+      | "C12.logoutrace", [some slot] =>
+        if !d.ok || !d.dbOK then (d, "bad-op") else
+        let tokM := (d.mslots slot).getD (bogusTok slot)
+        let r := logoutRace .memFirst d.st d.now tokM
+        -- the racing request may go either way; the monitor only records the logout
+        let sp' := (specStep d.sp d.now (.logout ((d.islots slot).getD (bogusTok slot))) .done).2
+        let mstr := "\t".intercalate ((if r.1 then "1" else "0") :: showDump r.2)
+        ({ d with st := r.2, sp := sp' }, verdict (mstr == "\t".intercalate impl) none mstr)
       | "C12.dbfail", [some b] =>
         if !d.ok || b > 1 then (d, "bad-op") else
         ({ d with dbOK := b == 0 }, verdict (impl == ["ok"]) none "ok")
